@@ -1,4 +1,2 @@
-"""Properties not (yet) claimed, with the reason. Kept current as checks are added."""
-NOT_CLAIMED = {
-    "C14": "not built: the fd layer (epoll on the real kernel with virtual timerfd) and the io_uring kernel model planned in DESIGN.md 2.6 do not exist yet; nothing is claimed",
-}
+"""Properties not claimed, with the reason. Kept current as checks are added."""
+NOT_CLAIMED = {}
